@@ -3,6 +3,41 @@ import linecache
 import sys
 
 
+import re
+import threading
+
+STRUCTURAL = re.compile(r'^(try:|finally:|else:|with .*:|except.*:|pass|return|break|continue)(\s*#.*)?$')
+_LOCK_TYPE = type(threading.Lock())
+
+
+def leaked_locks():
+    """Module-level locks of the agent that are still held (after a run that has ended): release and report them."""
+    out = []
+    for name, mod in list(sys.modules.items()):
+        if not name.startswith('deep.') and name != 'deep':
+            continue
+        for attr, val in list(vars(mod).items()):
+            if isinstance(val, _LOCK_TYPE) and val.locked():
+                try:
+                    val.release()
+                except RuntimeError:
+                    pass
+                out.append('%s.%s' % (name, attr))
+    return out
+
+
+def held_locks():
+    """Module-level locks of the agent that are held right now (does not release them)."""
+    out = []
+    for name, mod in list(sys.modules.items()):
+        if not name.startswith('deep.') and name != 'deep':
+            continue
+        for attr, val in list(vars(mod).items()):
+            if isinstance(val, _LOCK_TYPE) and val.locked():
+                out.append('%s.%s' % (name, attr))
+    return out
+
+
 class Fault(Exception):
     pass
 
@@ -72,9 +107,10 @@ class Injector:
             self.count += 1
             if self.target is not None and self.count == self.target:
                 text = linecache.getline(fn, frame.f_lineno).strip()
-                if text.startswith('with '):
-                    # CPython revisits the `with` line to call __exit__; raising there would skip the release of a
-                    # lock, which no real fault (short of an asynchronous exception) can do
+                if STRUCTURAL.match(text):
+                    # structural lines execute nothing that can fail; raising "at" them (CPython revisits a `with`
+                    # line to call __exit__, and a bare `try:` is outside the enclosing with's cleanup range) would
+                    # skip the release of a lock, which no real fault short of an asynchronous exception can do
                     self.skipped = True
                     return self.tracer
                 sec = classify(frame)
